@@ -276,6 +276,26 @@ class Worlds(object):
         if g in ('std::copy', 'std::move', 'std::copy_if') and len(args) >= 3:
             self.emit(s, self.world(args[0]), self.world(args[2]))
             return None
+        if g == 'std::transform' and len(args) == 4:
+            # dst <- f(src element): bind the functor's parameter to the source world, emit its result into the destination
+            from . import par as _par
+            ew = atom(self.world(args[0]))
+            fs, _ln = _par.lambda_functions(self.prog, args[3])
+            rw = None
+            for lf in fs:
+                if lf.param_ids:
+                    self.grow(lf.param_ids[0], ew)
+                rw = join(rw, atom(self.ret.get(lf.fref_id)))
+            self.emit(s, rw, self.world(args[2]))
+            return None
+        if g == 'std::accumulate' and len(args) == 4:
+            from . import par as _par
+            ew = atom(self.world(args[0]))
+            fs, _ln = _par.lambda_functions(self.prog, args[3])
+            for lf in fs:
+                if len(lf.param_ids) == 2:
+                    self.grow(lf.param_ids[1], ew)
+            return None
         if g in ('std::sort', 'std::stable_sort', 'std::for_each', 'std::find_if', 'std::any_of', 'std::all_of',
                  'std::remove_if', 'std::count_if'):
             ew = atom(self.world(args[0])) if args else None
